@@ -87,7 +87,8 @@ def gen_mixed(rng, tier, kinds=None, allow_faults=True, ends=None, modes=("plain
                 main.append({"op": "result", "f": fid})
                 fid += 1
     spec = dict(family="mixed", knobs=gen_knobs(rng, tier), model=gen_model(rng), threads=threads,
-                faults=gen_faults(rng, workers) if allow_faults else [])
+                faults=gen_faults(rng, workers) if allow_faults else [],
+                hold_refs=rng.random() < 0.8)
     return spec
 
 
